@@ -345,27 +345,32 @@ theorem constraintLoopP_np (ts) : NP (constraintLoopP ts) := by
     · exact np_seq (bumpP_np (by simp)) (by simpa [bump1] using ih)
     · exact np_nil _
 
-/-- relations.rs:219-232: S12 (IDENT), S13 (COLON), S14 (IDENT after the epoch) -/
+/-- the `while self.current() == Some(COLON)` loop of the version (after fix 4ba50b0): S13 is the
+    `bump()` of the COLON, guarded by the loop test; S14 the `bump()` of the IDENT after it, guarded by
+    `current() == Some(IDENT)`; otherwise `error(..)`, which pops only when a token is left. The model
+    (`versionLoop`) is a pattern match on the token list, so each `bump()` takes an element that the
+    match has just found: the flag is never set inside the loop. -/
+def versionLoopP (ts : List Tok) : PRP := ⟨versionLoop ts, false⟩
+
+@[simp] theorem versionLoopP_pr (ts) : (versionLoopP ts).pr = versionLoop ts := rfl
+
+theorem versionLoopP_np (ts) : NP (versionLoopP ts) := rfl
+
+/-- relations.rs:219-235: S12 (the first IDENT), then the colon loop -/
 def versionTokP (ts : List Tok) : PRP :=
-  if cur ts = some .IDENT then
-    (bumpP ts).andThen fun ts =>
-      if cur ts = some .COLON then (bumpP ts).andThen (expectP .IDENT "Expected version")
-      else PRP.nil ts
+  if cur ts = some .IDENT then (bumpP ts).andThen versionLoopP
   else errorP "Expected version" ts
 
 @[simp] theorem versionTokP_pr (ts) : (versionTokP ts).pr = versionTok ts := by
   unfold versionTokP versionTok; split
   · simp only [andThen_pr, bumpP_pr]
-    congr 1; funext x; split <;> simp
+    congr 1
   · simp
 
 theorem versionTokP_np (ts) : NP (versionTokP ts) := by
   unfold versionTokP; split
   · rename_i h
-    refine np_andThen (bumpP_np (cur_ne_nil h)) ?_
-    split
-    · rename_i h2; exact np_andThen (bumpP_np (cur_ne_nil h2)) (expectP_np _ _ _)
-    · exact np_nil _
+    exact np_andThen (bumpP_np (cur_ne_nil h)) (versionLoopP_np _)
   · exact errorP_np _ ts
 
 /-- relations.rs:200-243: S10 is the `bump()` of the `(`, S15 that of the `)` -/
